@@ -23,7 +23,8 @@ var rec = vh.NewRecorder("C17", "access-control",
 		"request id in {pending of that backend, pending of another backend, unknown, empty}) and end-user requests (owner, other user, "+
 		"anonymous) on paths of user-owned and allUsers backends; oracle = reference access-control model (status class per call, registry and "+
 		"store effects read back from the fake datastore); non-trivial = a call whose identity is valid for some backend but not for the named "+
-		"one, or a request id belonging to another backend; distinct = SHA-256 of the history")
+		"one, or a request id belonging to another backend; distinct = SHA-256 of the history"+
+		" Later additions: re-registration of a backend id for another agent account or end user, a fifth slot on the same prefix as B1 for another user, one fixed long URL answered without Cache-Control and then requested by another user, an OAuth caller whose user record has no e-mail address.")
 
 func TestMain(m *testing.M) { vh.Main(m, rec) }
 
